@@ -308,13 +308,11 @@ impl TypeEntry {
                     Err(Error::invalid_value())
                 }
             }
-            TypeEntryDetails::String => {
-                if let Some("") = default.as_str() {
-                    Ok(DefaultKind::Intrinsic)
-                } else {
-                    Ok(DefaultKind::Specific)
-                }
-            }
+            TypeEntryDetails::String => match default.as_str() {
+                Some("") => Ok(DefaultKind::Intrinsic),
+                Some(_) => Ok(DefaultKind::Specific),
+                None => Err(Error::invalid_value()),
+            },
 
             TypeEntryDetails::Reference(_) => unreachable!(),
         }
